@@ -665,7 +665,7 @@ func c18Run(c *Ctx) {
 	gv := newGen(GenP{Keys: []string{"a", "-x", "#text"}, MaxList: 2, MaxKeys: 3, EmptyList: true, EmptyMap: true, ListInList: false, Leaves: []interface{}{"s", "", nullLeaf{}}})
 	gv.values(ng, func(t *T) {
 		probe := inst(t, nil)
-		if !c03InDomain(probe, true) {
+		if !c03InDomain(probe, true) || c03HasNullAttr(probe) {
 			return
 		}
 		for _, enc := range []string{"Map.Xml", "Map.XmlIndent", "AnyXml", "AnyXmlIndent", "MapSeq.Xml", "MapSeq.XmlIndent"} {
